@@ -24,7 +24,9 @@ func c18Operand(v int, tag string) *mlrval.Mlrval {
 	case v == 0:
 		return mlrval.FromInt(verifInt64(tag + "_i"))
 	case v == 1:
-		return mlrval.FromFloat(verifFloat64(tag + "_f"))
+		// boundary floats (concrete: the float library kernels are not the subject here)
+		fs := []float64{0.0, -1.5, 1e300, c18NaN(), c18Inf()}
+		return mlrval.FromFloat(fs[verifChoice(tag+"_f", len(fs))])
 	case v == 2:
 		return mlrval.FromBool(verifBool(tag + "_b"))
 	case v == 3:
@@ -50,11 +52,16 @@ func c18Operand(v int, tag string) *mlrval.Mlrval {
 	return mlrval.ABSENT
 }
 
+func c18NaN() float64 { z := 0.0; return z / z }
+func c18Inf() float64 { z := 0.0; return 1 / z }
+
 // functions that reach the host (processes, clock, random numbers, time-zone files, environment)
 // are outside the claim: their OS boundary is not modelled.
 var c18Skip = map[string]bool{"system": true, "exec": true, "os_type": true, "hostname": true, "version": true,
 	"systime": true, "systimeint": true, "sysntime": true, "uptime": true, "urand": true, "urandint": true, "urand32": true,
-	"urandrange": true, "urandelement": true}
+	"urandrange": true, "urandelement": true,
+	// library digests and the reflection-based JSON decoder: outside the claim (DESIGN.md §5)
+	"md5": true, "sha1": true, "sha256": true, "sha512": true, "crc32": true, "json_decode": true}
 
 func c18Table() []BuiltinFunctionInfo { return makeBuiltinFunctionLookupTable() }
 
